@@ -11,13 +11,16 @@
 package main
 
 import (
+	"bufio"
 	"encoding/json"
 	"fmt"
+	"io"
 	"math/rand"
 	"os"
 	"sort"
 	"strconv"
 
+	"github.com/ElrondNetwork/elrond-go/data/transaction"
 	"github.com/ElrondNetwork/elrond-go/storage/immunitycache"
 	"github.com/ElrondNetwork/elrond-go/storage/txcache"
 	"verif/harness/internal/vtrace"
@@ -151,6 +154,11 @@ func (s *sut) apply(a string, in M) M {
 	case "Add":
 		c, i := keyOf(in["k"])
 		k := s.keyFor(c, i)
+		if s.kind == "cross" { // the wrapper's own entry point; values must be wrapped transactions
+			tx := &txcache.WrappedTransaction{Tx: &transaction.Transaction{Nonce: uint64(i)}, TxHash: []byte(k), Size: int64(vtrace.Int(in["z"]))}
+			has, added := s.c.(*txcache.CrossTxCache).AddTx(tx)
+			return M{"has": has, "added": added}
+		}
 		has, added := s.c.HasOrAdd([]byte(k), "v-"+k, vtrace.Int(in["z"]))
 		return M{"has": has, "added": added}
 	case "Immunize":
@@ -163,6 +171,9 @@ func (s *sut) apply(a string, in M) M {
 		return M{"now": now, "fut": fut}
 	case "Remove":
 		c, i := keyOf(in["k"])
+		if s.kind == "cross" {
+			return M{"ok": s.c.(*txcache.CrossTxCache).RemoveTxByHash([]byte(s.keyFor(c, i)))}
+		}
 		return M{"ok": s.c.RemoveWithResult([]byte(s.keyFor(c, i)))}
 	case "Get":
 		c, i := keyOf(in["k"])
@@ -233,6 +244,18 @@ func outMatches(pred, got M, a string) bool {
 	return true
 }
 
+// stateMatches compares the predicted projection with the observed one.  The specification lists the chunks that can
+// hold keys of its bounded key set; the cache-level counters cover the others (they must be empty for the sums to agree).
+func stateMatches(pred, obs M) bool {
+	pc := pred["ch"].([]interface{})
+	oc := obs["ch"].([]interface{})
+	if len(oc) < len(pc) {
+		return false
+	}
+	o2 := M{"ch": oc[:len(pc)], "cnt": obs["cnt"], "nb": obs["nb"], "ci": obs["ci"]}
+	return canon(pred) == canon(o2)
+}
+
 // logOut is the result as written into a trace (one fixed field set per action)
 func logOut(a string, got M) M {
 	if a == "Get" {
@@ -271,28 +294,34 @@ type step struct {
 	Bad []string `json:"bad"`
 }
 
-func readBehaviours(path string) ([][]step, error) {
-	lines, err := vtrace.ReadLines(path)
+// forEachBehaviour streams an ndjson behaviour file (one JSON array of step records per line).
+func forEachBehaviour(path string, f func(bi int, b []step)) error {
+	fh, err := os.Open(path)
 	if err != nil {
-		return nil, err
+		return err
 	}
-	res := make([][]step, 0, len(lines))
-	for i, l := range lines {
-		var b []step
-		if e := json.Unmarshal(l, &b); e != nil {
-			return nil, fmt.Errorf("behaviour line %d: %v", i+1, e)
+	defer fh.Close()
+	r := bufio.NewReaderSize(fh, 1<<20)
+	for bi := 0; ; {
+		line, err := r.ReadBytes('\n')
+		if len(line) > 1 {
+			var b []step
+			if e := json.Unmarshal(line, &b); e != nil {
+				return fmt.Errorf("behaviour line %d: %v", bi+1, e)
+			}
+			f(bi, b)
+			bi++
 		}
-		res = append(res, b)
+		if err == io.EOF {
+			return nil
+		}
+		if err != nil {
+			return err
+		}
 	}
-	return res, nil
 }
 
 func replay(path, mismatchOut string) {
-	bs, err := readBehaviours(path)
-	if err != nil {
-		vtrace.Broken(err.Error())
-		return
-	}
 	mw, err := vtrace.NewWriter(mismatchOut)
 	if err != nil {
 		vtrace.Broken(err.Error())
@@ -301,8 +330,9 @@ func replay(path, mismatchOut string) {
 	distinct := vtrace.NewDistinct()
 	steps, skipped, mismatched, followed, nviol := 0, 0, 0, 0, 0
 	reported := map[string]int{}
-	samples := 0
-	for bi, b := range bs {
+	samples, nb := 0, 0
+	err = forEachBehaviour(path, func(bi int, b []step) {
+		nb++
 		for _, kind := range []string{"immunity", "cross"} {
 			if kind == "cross" && bi%4 != 0 {
 				continue // growth: the CrossTxCache wrapper gets every 4th behaviour
@@ -338,12 +368,16 @@ func replay(path, mismatchOut string) {
 					st := b[si]
 					got := s.apply(st.A, st.In)
 					steps++
-					obs := s.proj()
+					_, slim := st.St["x"] // transition-cover export keeps the full state only in the last record
+					var obs M
+					if !slim || bad {
+						obs = s.proj()
+					}
 					log = append(log, ev{st.A, st.In, logOut(st.A, got), obs})
 					if bad {
 						continue // keep driving the inputs; TLC judges the recorded trace
 					}
-					if !outMatches(st.Out, got, st.A) || canon(st.St) != canon(obs) || !s.mapConsistent() {
+					if !outMatches(st.Out, got, st.A) || (!slim && (!stateMatches(st.St, obs) || !s.mapConsistent())) {
 						bad = true
 						continue
 					}
@@ -352,6 +386,15 @@ func replay(path, mismatchOut string) {
 			if bad {
 				mismatched++
 				if mismatched <= 40 {
+					// re-run the inputs on a fresh cache, recording the projected state after every step
+					s2, _ := newSut(kind, vtrace.Int(in["nc"]), vtrace.Int(in["mi"]), vtrace.Int(in["mb"]), vtrace.Int(in["ev"]))
+					log = log[:1]
+					if ok {
+						for si := 1; si < len(b); si++ {
+							got := s2.apply(b[si].A, b[si].In)
+							log = append(log, ev{b[si].A, b[si].In, logOut(b[si].A, got), s2.proj()})
+						}
+					}
 					for i, e := range log {
 						if i == 0 {
 							mw.NewTraceWith(e.a, e.in, e.out, e.st)
@@ -381,17 +424,20 @@ func replay(path, mismatchOut string) {
 		}
 		if len(b) > 1 {
 			last := b[len(b)-1]
-			distinct.Add(canon(b[len(b)-2].St) + last.A + canon(M(last.In)) + canon(M(b[0].In)) + canon(b[0].Out["cc"]))
+			distinct.Add(canon(last.St) + last.A + canon(last.In) + canon(b[0].In) + canon(b[0].Out["cc"]))
 		}
 		if samples < 3 && len(b) >= 4 {
 			samples++
 			vtrace.Sample("C27", b)
 		}
+	})
+	if err != nil {
+		vtrace.Broken(err.Error())
 	}
 	if err := mw.Close(); err != nil {
 		vtrace.Broken(err.Error())
 	}
-	vtrace.Stat("behaviours", len(bs))
+	vtrace.Stat("behaviours", nb)
 	vtrace.Stat("followed", followed)
 	vtrace.Stat("skipped_other_variant", skipped)
 	vtrace.Stat("mismatched", mismatched)
@@ -441,8 +487,12 @@ func record(seed int64, traces, n int, out string) {
 		w.NewTraceWith("New", M{"nc": nc, "mi": mi, "mb": mb, "ev": ev}, M{"ok": true, "cc": s.chunkCfg()}, s.proj())
 		universe := 2*mi + 8
 		length := n
-		if t == 0 {
-			length = 3 * n
+		addPct := 58
+		if t == 0 { // enough additions to fill the 16 chunks and then keep adding
+			addPct = 85
+			if length < 160 {
+				length = 160
+			}
 		}
 		maxz := 1 + rng.Intn(2*mb/nc+6)
 		for i := 0; i < length; i++ {
@@ -452,9 +502,9 @@ func record(seed int64, traces, n int, out string) {
 			var a string
 			var in M
 			switch r := rng.Intn(100); {
-			case r < 58:
+			case r < addPct:
 				a, in = "Add", M{"k": kin, "z": rng.Intn(maxz)}
-			case r < 68:
+			case r < addPct+10:
 				a = "Immunize"
 				seen := map[string]bool{k: true}
 				ks := []interface{}{kin}
@@ -468,7 +518,7 @@ func record(seed int64, traces, n int, out string) {
 					ks = append(ks, M{"c": c2[0], "i": c2[1]})
 				}
 				in = M{"ks": ks}
-			case r < 80:
+			case r < addPct+22:
 				a, in = "Remove", M{"k": kin}
 			case r < 99:
 				a, in = "Get", M{"k": kin}
